@@ -45,9 +45,13 @@ def make_spec(case):
         spec["options"]["scale"] = bool(rng.random() < 0.7)
         return spec
     if fam == "narrow":
-        return gen.general(rng, bound_patterns=("narrow", "tiny", "two",
+        spec = gen.general(rng, bound_patterns=("narrow", "tiny", "two",
                                                 "nearfixed"),
                            maxfev=(30, 100))
+        if rng.random() < 0.5:
+            # widths over ten decades under scale=True
+            spec["options"]["scale"] = True
+        return spec
     # soc: curved feasible set hugging a face of the box
     n = int(rng.integers(2, 5))
     c = rng.uniform(-1, 1, n)
